@@ -290,6 +290,49 @@ def fact_ext_allows_default_cluster(repo):
         return None
 
 
+def _pps_store(repo):
+    tree = _parse(repo, "storage_base.py")
+    cls = _find_class(tree, "PicklePartitionStrategy")
+    return _find_func(cls, "store")
+
+
+def fact_partition_parent_full_index(repo):
+    """PicklePartitionStrategy.store assigns obj._output_keys from the merged `index` (True) or from the
+    partition's own `output_keys` (False)"""
+    try:
+        fn = _pps_store(repo)
+        for n in ast.walk(fn):
+            if isinstance(n, ast.Assign) and len(n.targets) == 1 and isinstance(n.targets[0], ast.Attribute) \
+                    and n.targets[0].attr == "_output_keys":
+                names = {x.id for x in ast.walk(n.value) if isinstance(x, ast.Name)}
+                if "index" in names and "output_keys" not in names:
+                    return True
+                if "output_keys" in names and "index" not in names:
+                    return False
+                return None
+        return None
+    except Exception:
+        return None
+
+
+def fact_partition_inprocess_parent(repo):
+    """the attribute store() looks for on an in-process merge parent (and sets on the stored object) is one that
+    InMemoryPartition and OnDiskPartition both define, and it does not overwrite OnDiskPartition's staging
+    `_data_source`"""
+    try:
+        fn = _pps_store(repo)
+        assigned = {n.targets[0].attr for n in ast.walk(fn) if isinstance(n, ast.Assign) and len(n.targets) == 1
+                    and isinstance(n.targets[0], ast.Attribute) and isinstance(n.targets[0].value, ast.Name) and n.targets[0].value.id == "obj"}
+        strs = {n.value for n in ast.walk(fn) if isinstance(n, ast.Constant) and isinstance(n.value, str)}
+        if "_data_source" in assigned:
+            return False
+        if "_parent_data_source" in assigned and "_parent_data_source" in strs:
+            return True
+        return None
+    except Exception:
+        return None
+
+
 FACTS = []
 
 
@@ -358,6 +401,16 @@ def _f11(repo):
 @fact("ext_allows_default_cluster", "option bool")
 def _f12(repo):
     return _opt_bool(fact_ext_allows_default_cluster(repo))
+
+
+@fact("partition_parent_full_index", "option bool")
+def _f13(repo):
+    return _opt_bool(fact_partition_parent_full_index(repo))
+
+
+@fact("partition_inprocess_parent", "option bool")
+def _f14(repo):
+    return _opt_bool(fact_partition_inprocess_parent(repo))
 
 
 def generate(repo):
